@@ -211,6 +211,137 @@ theorem C08_hybrid_loco_step : C08_hybrid_loco_step_statement := by
   obtain ⟨p, s, -, -, e⟩ := C08_hybrid_step α k l.h h' req dt split ga l.assertLimits hok hga hs
   exact ⟨p, s, rfl, rfl, e⟩
 
+/-! ### whole hybrid simulations -/
+
+/-- A whole hybrid simulation: the left fold of `LocomotiveSimulation::solve_step` over the trace of
+    `(pwr_out_req, dt, engine_on, split)` samples — `split` is the value the controller / the search
+    ends that step with — aborting at the first rejected step. -/
+def hlocoWalk {β : Type} [Add β] [Sub β] [Mul β] [Div β] [Neg β] [LT β] [LE β]
+    [DecidableLT β] [DecidableLE β] [OfNat β 0] [OfNat β 1]
+    (k : Consts β) (ga : β) (l : HLoco β) : List (β × β × Option Bool × β) → Res (HLoco β)
+  | [] => .ok l
+  | (req, dt, eo, split) :: t => (hlocoSimStep k l req dt eo split ga).bind fun l' => hlocoWalk k ga l' t
+
+theorem hlocoWalk_cons (k : Consts α) (ga : α) (l : HLoco α) (req dt : α) (eo : Option Bool) (split : α)
+    (t : List (α × α × Option Bool × α)) :
+    hlocoWalk k ga l ((req, dt, eo, split) :: t) =
+      (hlocoSimStep k l req dt eo split ga).bind fun l' => hlocoWalk k ga l' t := rfl
+
+theorem hlocoWalk_append (k : Consts α) (ga : α) (l l2 : HLoco α) (t1 t2 : List (α × α × Option Bool × α)) :
+    hlocoWalk k ga l (t1 ++ t2) = .ok l2 ↔ ∃ l1, hlocoWalk k ga l t1 = .ok l1 ∧ hlocoWalk k ga l1 t2 = .ok l2 := by
+  induction t1 generalizing l with
+  | nil => simp [hlocoWalk]
+  | cons s t ih =>
+    obtain ⟨req, dt, eo, split⟩ := s
+    simp only [List.cons_append, hlocoWalk_cons, bind_ok_iff, ih]
+    constructor
+    · rintro ⟨l', h1, l1, h2, h3⟩; exact ⟨l1, ⟨l', h1, h2⟩, h3⟩
+    · rintro ⟨l1, ⟨l', h1, h2⟩, h3⟩; exact ⟨l', h1, l1, h2, h3⟩
+
+def HybCarry (h h' : Hybrid α) : Prop :=
+  FCCarry h.fc h'.fc ∧ GenCarry h.gen h'.gen ∧ ResCarry h.res h'.res ∧ EdrvCarry h.edrv h'.edrv
+
+theorem hybSetCurMax_carry (k : Consts α) (h h' : Hybrid α) (aux dt : α)
+    (hh : hybSetCurMax k h aux dt = .ok h') : HybCarry h h' := by
+  unfold hybSetCurMax at hh
+  simp only [bind, pure, bind_ok_iff] at hh
+  obtain ⟨r', hr, fc', hf, g', hg, e', he, e'', he', hres⟩ := hh
+  cases hres
+  obtain ⟨-, cf⟩ := fcSetCurMax_carry k h.fc fc' dt hf
+  have cg := genSetCurMax_carry h.gen g' _ _ hg
+  have cr := resSetCurMax_carry k h.res r' _ _ _ hr
+  have ce := (edrvSetCurMax_carry h.edrv e' _ he).trans (edrvSetRegenMax_carry e' e'' _ he')
+  exact ⟨cf, cg, cr, ce⟩
+
+theorem HybCarry.params {a b : Hybrid α} (h : HybCarry a b) : HybParams a b :=
+  ⟨h.1.1, h.2.1.1, h.2.2.1.1, h.2.2.2.1⟩
+
+theorem HybCarry.energy {a b : Hybrid α} (h : HybCarry a b) : HybEnergyLE a b := by
+  obtain ⟨⟨-, a1, a2⟩, ⟨-, a3⟩, ⟨-, a4⟩, -, a5, a6, a7⟩ := h
+  exact ⟨⟨a1.ge, a2.ge⟩, a3.ge, a4.ge, a5.ge, a6.ge, a7.ge⟩
+
+theorem HybParams.trans {a b c : Hybrid α} (h1 : HybParams a b) (h2 : HybParams b c) : HybParams a c :=
+  ⟨h1.1.trans h2.1, h1.2.1.trans h2.2.1, h1.2.2.1.trans h2.2.2.1, h1.2.2.2.trans h2.2.2.2⟩
+
+theorem HybParams.refl (a : Hybrid α) : HybParams a a := by
+  simp [HybParams, FCParams, GenParams, EdrvParams, ResParams]
+
+theorem HybOK.of_params {a b : Hybrid α} (h : HybOK a) (p : HybParams a b) : HybOK b :=
+  ⟨h.1.of_params p.1, h.2.1.of_params p.2.1, h.2.2.1.of_params p.2.2.1, h.2.2.2.of_params p.2.2.2⟩
+
+theorem HybEnergyLE.trans {a b c : Hybrid α} (h1 : HybEnergyLE a b) (h2 : HybEnergyLE b c) :
+    HybEnergyLE a c := by
+  simp only [HybEnergyLE, FCEnergyLE, GenEnergyLE, EdrvEnergyLE, ResEnergyLE] at h1 h2 ⊢
+  obtain ⟨⟨a1, a2⟩, a3, a4, a5, a6, a7⟩ := h1
+  obtain ⟨⟨b1, b2⟩, b3, b4, b5, b6, b7⟩ := h2
+  exact ⟨⟨a1.trans b1, a2.trans b2⟩, a3.trans b3, a4.trans b4, a5.trans b5, a6.trans b6, a7.trans b7⟩
+
+theorem HybEnergyLE.refl (a : Hybrid α) : HybEnergyLE a a := by
+  simp [HybEnergyLE, FCEnergyLE, GenEnergyLE, EdrvEnergyLE, ResEnergyLE]
+
+/-- one accepted simulation step of a hybrid: parameters kept, every component within the second law,
+    cumulative energies not decreased (`0 ≤ dt`), wheel power = request up to the step's own tolerance -/
+theorem hlocoSimStep_step (k : Consts α) (l l' : HLoco α) (req dt : α) (eo : Option Bool) (split ga : α)
+    (hok : HybOK l.h) (hga : 0 ≤ ga) (hs : hlocoSimStep k l req dt eo split ga = .ok l') :
+    HybParams l.h l'.h ∧ HybOK l'.h ∧ HybStepOK l'.h ∧ l'.h.edrv.state.pwrOutReq = req ∧
+      l'.h.split = split ∧ (0 ≤ dt → HybEnergyLE l.h l'.h) := by
+  unfold hlocoSimStep at hs
+  simp only [bind, pure, bind_ok_iff, ensure_ok_iff, exists_const] at hs
+  obtain ⟨l1, h1, l2, h2, -, hr⟩ := hs
+  cases hr
+  unfold hlocoSetCurMax at h1
+  simp only [bind, pure, bind_ok_iff] at h1
+  obtain ⟨hy1, hc, hl1⟩ := h1
+  cases hl1
+  have c1 := hybSetCurMax_carry k _ hy1 _ dt hc
+  have ok1 : HybOK hy1 := hok.of_params c1.params
+  unfold hlocoSolve at h2
+  simp only [bind, pure, bind_ok_iff] at h2
+  obtain ⟨hy2, hsol, hl2⟩ := h2
+  cases hl2
+  obtain ⟨p2, s2, rq, sp, e2⟩ := C08_hybrid_step α k hy1 hy2 req dt split ga _ ok1 hga hsol
+  have p : HybParams l.h hy2 := c1.params.trans p2
+  exact ⟨p, hok.of_params p, s2, rq, sp, fun hdt => c1.energy.trans (e2 hdt)⟩
+
+/-- **Whole hybrid traces, for every sequence of splits**: for every decomposition `t1 ++ t2` of an
+    accepted walk the prefix is accepted; every cumulative fuel / loss / dynamic-braking energy of
+    engine, generator, battery and drivetrain satisfies `start ≤ after t1 ≤ end`; maps and ratings are
+    kept; and after the last step of any non-empty accepted prefix every component obeys the
+    second law — whatever split the controller or the search chose in each step. -/
+def C08_hybrid_walk_statement : Prop :=
+  ∀ (α : Type) [Field α] [LinearOrder α] [IsStrictOrderedRing α]
+    (k : Consts α) (ga : α) (l l2 : HLoco α) (t1 t2 : List (α × α × Option Bool × α)),
+    HybOK l.h → 0 ≤ ga →
+    (∀ s ∈ t1 ++ t2, 0 ≤ s.2.1) →         -- forced: every time step is non-negative
+    hlocoWalk k ga l (t1 ++ t2) = .ok l2 →
+      ∃ l1, hlocoWalk k ga l t1 = .ok l1 ∧ HybEnergyLE l.h l1.h ∧ HybEnergyLE l1.h l2.h ∧
+        HybParams l.h l2.h ∧ HybOK l2.h ∧ (t1 ++ t2 ≠ [] → HybStepOK l2.h)
+
+theorem hlocoWalk_inv (k : Consts α) (ga : α) (l l' : HLoco α) (t : List (α × α × Option Bool × α))
+    (hok : HybOK l.h) (hga : 0 ≤ ga) (hdt : ∀ s ∈ t, 0 ≤ s.2.1) (h : hlocoWalk k ga l t = .ok l') :
+    HybParams l.h l'.h ∧ HybEnergyLE l.h l'.h ∧ (t ≠ [] → HybStepOK l'.h) := by
+  induction t generalizing l with
+  | nil => cases h; exact ⟨HybParams.refl _, HybEnergyLE.refl _, fun hne => absurd rfl hne⟩
+  | cons s t ih =>
+    obtain ⟨req, dt, eo, split⟩ := s
+    rw [hlocoWalk_cons, bind_ok_iff] at h
+    obtain ⟨l1, h1, h2⟩ := h
+    obtain ⟨p1, ok1, s1, -, -, e1⟩ := hlocoSimStep_step k l l1 req dt eo split ga hok hga h1
+    obtain ⟨p2, e2, s2⟩ := ih l1 ok1 (fun s hs => hdt s (by simp [hs])) h2
+    refine ⟨p1.trans p2, (e1 (hdt (req, dt, eo, split) (by simp))).trans e2, fun _ => ?_⟩
+    cases t with
+    | nil => cases h2; exact s1
+    | cons s' t' => exact s2 (by simp)
+
+theorem C08_hybrid_walk : C08_hybrid_walk_statement := by
+  intro α _ _ _ k ga l l2 t1 t2 hok hga hdt h
+  obtain ⟨l1, h1, h2⟩ := (hlocoWalk_append k ga l l2 t1 t2).mp h
+  obtain ⟨p1, e1, -⟩ := hlocoWalk_inv k ga l l1 t1 hok hga (fun s hs => hdt s (List.mem_append_left _ hs)) h1
+  obtain ⟨-, e2, -⟩ := hlocoWalk_inv k ga l1 l2 t2 (hok.of_params p1) hga
+    (fun s hs => hdt s (List.mem_append_right _ hs)) h2
+  obtain ⟨p, -, s⟩ := hlocoWalk_inv k ga l l2 _ hok hga hdt h
+  exact ⟨l1, h1, e1, e2, p, hok.of_params p, s⟩
+
 /-- **The hybrid arm ignores `engine_on`.**  Model-level reading of the source ("TODO: add `engine_on`
     and `pwr_aux` here as inputs"): with zero demand an accepted hybrid step burns exactly its idle fuel
     plus the fuel for the hard-coded generator load, whatever the engine command was. Full-strength C08
@@ -243,6 +374,10 @@ example : 0 ≤ hybQ.edrv.state.pwrMechRegenMax := by decide +kernel
 example : ∃ h', hybSolve kQ hybQ 300 1 true (1 / 2) 50 = .ok h' ∧ HybStepOK h' := by
   obtain ⟨h', hh⟩ := exists_of_isOk (r := hybSolve kQ hybQ 300 1 true (1 / 2) 50) (by decide +kernel)
   exact ⟨h', hh, (C08_hybrid_step ℚ kQ hybQ h' 300 1 (1 / 2) 50 true hybQ_ok (by decide +kernel) hh).2.1⟩
+
+/-- non-vacuity of `C08_hybrid_walk`: a three-step trace with three different splits is accepted -/
+example : (hlocoWalk kQ 50 hlocoQ [(300, 1, none, 1 / 2), (-200, 1, some true, 1 / 4), (100, 1 / 2, none, 3 / 4)]).isOk = true := by
+  decide +kernel
 
 /-- **Counterexample to the engine-off clause for hybrids**: commanded off with zero demand, the step
     is accepted and the engine still burns fuel (idle fuel + the fuel for the hard-coded generator load). -/
